@@ -44,6 +44,9 @@ CHECKS["C20"] = ("exploration", "directed two-thread preemption at hooked yield 
 CHECKS["C13"] = ("exploration", "triple-set reference model checked after every store operation + reference SPARQL evaluator differential, mismatches shrunk to skeleton signatures",
   "Random histories of insert/remove/clear/transaction-buffer operations on the real RdfStore (both object-index settings) are compared after every operation with a set-of-triples model on all eight lookup shapes, len/stats/contains and the ring index; random SPARQL queries (BGP joins incl. repeated variables, FILTER, OPTIONAL, UNION, DISTINCT, ORDER/LIMIT/OFFSET, COUNT/GROUP BY, INSERT/DELETE DATA, DELETE WHERE, CLEAR) run through execute_sparql are compared with an independent reference evaluator; a directed transaction matrix covers SPARQL inside session transactions.",
   "Term universe of about a dozen terms and <= 16 triples per query case; only the generated SPARQL core; ORDER BY judged only where SPARQL defines the order.", "DESIGN.md §4 C13")
+CHECKS["C19"] = ("exploration", "algorithm result validators: brute-force oracles, definitional re-checks and cross-algorithm agreement on generated multigraphs, failures shrunk to feature-class signatures",
+  "Every bundled algorithm (shortest paths incl. A*, Bellman-Ford, Floyd-Warshall; traversals; components; topological sort; MST; max flow / min-cost flow; articulation points, bridges, k-core; centralities; clustering; community sanity) is run on 15 fixed witness graphs, on all digraphs with self-loops on <= 3 (quick) / <= 4 (thorough) nodes and on thousands of random multigraphs (self-loops, parallel/antiparallel edges, isolated nodes, disconnected parts, zero/equal/missing/negative weights), for every source/target, and each result is validated against its specification by brute force.",
+  "Graphs <= 9 nodes / 24 edges; where an algorithm's documentation is silent any consistent reading is accepted (listed in the evidence assumptions).", "DESIGN.md §4 C19")
 NOT_YET = {}
 
 def main():
